@@ -13,6 +13,7 @@ import (
 
 	"github.com/XiaoMi/Gaea/parser"
 	"github.com/XiaoMi/Gaea/proxy/plan"
+	"github.com/XiaoMi/Gaea/proxy/router"
 	"github.com/XiaoMi/Gaea/proxy/sequence"
 )
 
@@ -35,6 +36,13 @@ func c07Statements(seed int64, n int) []string {
 		switch g.Intn(5) {
 		case 0: // unsharded tables: the checker asks the router for their (default) rule
 			out = append(out, fmt.Sprintf("SELECT * FROM t_unshard_%d WHERE id = %d", g.Intn(3), g.Intn(100)))
+		case 2:
+			if g.Intn(3) == 0 { // mycat hint: routed by DATABASE() = 'phy db' only
+				t := core.Pick(g, []string{"t_mmod", "t_mlong", "t_mmur", "t_mstr"})
+				out = append(out, fmt.Sprintf("SELECT * FROM %s WHERE DATABASE() = 'db_mycat_%d'", t, g.Intn(4)))
+			} else { // two disjoint ranges joined by OR
+				out = append(out, fmt.Sprintf("SELECT * FROM t_r100 WHERE k < %d OR k >= %d", 1+g.Intn(120), 250+g.Intn(140)))
+			}
 		case 1:
 			out = append(out, fmt.Sprintf("UPDATE t_unshard_%d SET a = 1 WHERE id IN (%d, %d)", g.Intn(3), g.Intn(10), g.Intn(10)))
 		default:
@@ -77,11 +85,37 @@ func c07Plan(sql string) string {
 	return fmt.Sprintf("%T|%s", p, strings.Join(parts, "|"))
 }
 
+// c07Snapshot renders every field of the shared routing state that sessions can
+// reach through the Rule interface; planning must leave it unchanged.
+func c07Snapshot() string {
+	rt, _ := c01GetRouter()
+	var parts []string
+	for db, rules := range rt.GetAllRules() {
+		for tbl, r := range rules {
+			var dbs []string
+			if mr, ok := r.(router.MycatRule); ok {
+				dbs = mr.GetDatabases()
+			}
+			line := fmt.Sprintf("%s.%s|%s|%s|%v|%d|%d|%v|%v", db, tbl, r.GetType(), r.GetShardingColumn(), r.GetSubTableIndexes(),
+				r.GetFirstTableIndex(), r.GetLastTableIndex(), r.GetSlices(), dbs)
+			for _, i := range r.GetSubTableIndexes() {
+				line += fmt.Sprintf("|%d>%d", i, r.GetSliceIndexFromTableIndex(i))
+			}
+			parts = append(parts, line)
+		}
+	}
+	d := rt.GetDefaultRule()
+	parts = append(parts, fmt.Sprintf("default|%s|%v|%v", d.GetType(), d.GetSubTableIndexes(), d.GetSlices()))
+	sort.Strings(parts)
+	return strings.Join(parts, "\n")
+}
+
 func execC07(in core.Sexp) string {
 	n := int(in.Nth(1).Int())
 	seed := in.Nth(2).Int()
 	workers := int(in.Nth(3).Int())
 	stmts := c07Statements(seed, n)
+	before := c07Snapshot()
 	seq := make([]string, n)
 	for i, s := range stmts {
 		seq[i] = c07Plan(s)
@@ -101,6 +135,9 @@ func execC07(in core.Sexp) string {
 		}(w)
 	}
 	wg.Wait()
+	if c07Snapshot() != before {
+		return "(state-changed)"
+	}
 	for w := range res {
 		for i := range seq {
 			if res[w][i] != seq[i] {
